@@ -232,21 +232,24 @@ func (i *input) lex() {
 					if i.eof() {
 						return
 					}
-					c := i.readRune()
-					comment.WriteRune(c)
+					// Look for the delimiters before consuming a rune, so
+					// that an end delimiter directly after the start
+					// delimiter (or after a nested end delimiter) is seen.
 					if i.lang.NestedComments() && i.match(start) {
 						// Allows nested comments.
 						comment.WriteString(start)
 						nesting++
+						continue
 					}
 					if i.match(end) {
 						if nesting > 0 {
 							comment.WriteString(end)
 							nesting--
-						} else {
-							break
+							continue
 						}
+						break
 					}
+					comment.WriteRune(i.readRune())
 				}
 				i.comments = append(i.comments, &Comment{
 					StartLine: startLine,
